@@ -268,7 +268,7 @@ class C07(Check):
             for prio in ([0.5, 1, 1], [0, 1, 1], [0.5, 0.5, 1], [0.5, 0, 0.5]):
                 for draws in ([0.9, 0.9, 0.0], [0.0], [0.9, 0.0], [0.6, 0.4, 0.0]):
                     for threaded in (False, True):
-                        for seed in (0, 1):
+                        for seed in ((0,) if threaded else (1,)):
                             out.append({"kind": "threads", "threaded": threaded, "users": users, "progs": progs, "prio": prio[:len(users)],
                                         "draws": draws, "sched": {"type": "pct", "seed": seed, "d": 2, "k": 150}})
         return out
@@ -361,7 +361,7 @@ class C07(Check):
         return case
 
     def generate(self, rng, tier):
-        n = 650 if tier == "quick" else 3000
+        n = 600 if tier == "quick" else 3000
         for i in range(n):
             yield self.gen_threads_case(rng, big=(i % 10 == 9))
         if tier == "thorough":
@@ -1069,20 +1069,29 @@ class C07(Check):
     # ------------------------------------------------------------------ implementation: two scheduler instances
     def run_twosched(self, case):
         """a default scheduler and a second one (neither running); a function and a task are handed to the SECOND one from a thread
-        that is neither's: nothing may appear in the default scheduler's ready queue, and the second one's must hold the helpers"""
+        that is neither's: nothing may appear in the default scheduler's ready queue, and the second one's must hold the helpers.
+        Real primitives: the hand-over runs in a watched thread (a hand-over that blocks for ever is an observable, not a hang)."""
         recoco = self.recoco
         saved = recoco.defaultScheduler
+        import threading as _th
+        res = {}
         try:
-            d = recoco.Scheduler(isDefaultScheduler=True, startInThread=False)
-            s2 = recoco.Scheduler(isDefaultScheduler=False, startInThread=False)
+            d = recoco.Scheduler(isDefaultScheduler=True, startInThread=False, threaded_selecthub=False)
+            s2 = recoco.Scheduler(isDefaultScheduler=False, startInThread=False, threaded_selecthub=False)
             class T(recoco.BaseTask):
                 def run(self): yield False
             ready = lambda s: [v for n, v in sorted(vars(s).items()) if isinstance(v, collections.deque)][0]
             before = (len(ready(d)), len(ready(s2)))
-            s2.callLater(lambda: None)
-            s2.schedule(T())
+            def hand():
+                try:
+                    s2.callLater(lambda: None)
+                    s2.schedule(T())
+                    res["done"] = True
+                except BaseException as e:
+                    res["error"] = "%s: %s" % (type(e).__name__, e)
+            th = _th.Thread(target=hand, daemon=True); th.start(); th.join(10)
             after = (len(ready(d)), len(ready(s2)))
-            return {"leaked": after[0] - before[0], "own": after[1] - before[1]}
+            return {"leaked": after[0] - before[0], "own": after[1] - before[1], "hung": th.is_alive(), "error": res.get("error")}
         finally:
             recoco.defaultScheduler = saved
 
@@ -1225,6 +1234,8 @@ class C07(Check):
             if obs["dup_ready_at_steps"]: return HUBRACE_KEY.split(":", 1)[1]
             if obs["thread_errors"]: return "exception left a thread"
         if k == "twosched":
+            if obs.get("hung"): return "a hand-over from a foreign thread blocks for ever"
+            if obs.get("error"): return "a hand-over from a foreign thread raised " + obs["error"].split(":")[0]
             if obs["leaked"]: return TWOSCHED_KEY.split(":", 1)[1]
             if obs["own"] != 2: return "a hand-over to a scheduler did not reach its ready queue"
         if k == "pinger" and obs.get("blocks") and obs.get("why", "").startswith("pongAll blocks"):
